@@ -2,9 +2,8 @@
   C04 — master/minion and VirtualServer/Route composition is exactly as declared.
   Proved here: which minions attach to a master, which routes attach to a
   VirtualServer, and that the composition is a function of the object set.
-  The per-path arbitration among minions (oldest claimant serves the path) is
-  specified in Spec.minionsOf and decided by the direct Spec check on the real
-  code; its theorem is work in progress (see DESIGN.md, C04).
+  The per-path arbitration among minions (the oldest claimant serves the path) is proved in
+  Props/C04Paths.lean (path_served_by_oldest_claimant).
 -/
 import Nic.Props.C01
 
@@ -175,7 +174,7 @@ theorem attached_route_fits (vsrs : Map VSR) (v : VS) (m : Meta) (h : m ∈ (bui
 def isMinionOf (host : String) (kv : String × Ing) : Bool :=
   isMinion kv.2 && (match kv.2.rules with | [] => false | (h, _) :: _ => host = h)
 
-private theorem setValid_md (cfgs : List MinionCfg) (i : Nat) (p : String) (v : Bool) :
+theorem setValid_md (cfgs : List MinionCfg) (i : Nat) (p : String) (v : Bool) :
     (setValid cfgs i p v).map (·.md) = cfgs.map (·.md) := by
   unfold setValid
   apply List.ext_getElem
@@ -184,19 +183,19 @@ private theorem setValid_md (cfgs : List MinionCfg) (i : Nat) (p : String) (v : 
     simp only [List.getElem_map, List.getElem_mapIdx]
     split <;> rfl
 
-private theorem minionPath_md (self : Nat) (m : Meta) (a : MinAcc) (p : String) :
+theorem minionPath_md (self : Nat) (m : Meta) (a : MinAcc) (p : String) :
     (minionPath self m a p).cfgs.map (·.md) = a.cfgs.map (·.md) := by
   unfold minionPath
   repeat' split
   all_goals simp [setValid_md]
 
-private theorem fold_minionPath_md (ps : List String) (self : Nat) (m : Meta) (a : MinAcc) :
+theorem fold_minionPath_md (ps : List String) (self : Nat) (m : Meta) (a : MinAcc) :
     (ps.foldl (minionPath self m) a).cfgs.map (·.md) = a.cfgs.map (·.md) := by
   induction ps generalizing a with
   | nil => rfl
   | cons p r ih => simp only [List.foldl_cons]; rw [ih, minionPath_md]
 
-private theorem minionStep_md (host : String) (a : MinAcc) (kv : String × Ing) :
+theorem minionStep_md (host : String) (a : MinAcc) (kv : String × Ing) :
     (minionStep host a kv).cfgs.map (·.md) =
       a.cfgs.map (·.md) ++ (if isMinionOf host kv then [kv.2.md] else []) := by
   unfold minionStep isMinionOf
@@ -212,7 +211,7 @@ private theorem minionStep_md (host : String) (a : MinAcc) (kv : String × Ing) 
   · have hm' : isMinion kv.2 = false := by simpa using hm
     simp [hm']
 
-private theorem fold_minionStep_md (host : String) (l : List (String × Ing)) (a : MinAcc) :
+theorem fold_minionStep_md (host : String) (l : List (String × Ing)) (a : MinAcc) :
     (l.foldl (minionStep host) a).cfgs.map (·.md) =
       a.cfgs.map (·.md) ++ (l.filter (isMinionOf host)).map (·.2.md) := by
   induction l generalizing a with
